@@ -133,7 +133,8 @@ def mockClientSkel (tt : List TagTuple) : ClassSkel :=
     hasInit := true
     initParams := kSelf :: tt.map (·.module)
     attrs := tt.map fun t => privAttr t.module
-    initBodyEmpty := tt.isEmpty
+    -- F31 repaired: without tag clients the constructor body is the single statement `pass`
+    initBodyEmpty := false
     props := tt.map fun t => (t.module, t.cls ++ kProtocolSuffix)
     methods := fixedMethods }
 
